@@ -290,7 +290,8 @@ func runSQLite(args []string) {
 		}
 		form := cr.Pick([]string{"single(*)", "bulk(*)", "bulkptr(*)", "single(cols)*", "bulk(cols)*", "single(cols)members"})
 		// with omitempty types bulk rows must agree on zero-ness; harmonise on the first row
-		if strings.HasPrefix(form, "bulk") {
+		harmonise := cr.Chance(3, 4)
+		if strings.HasPrefix(form, "bulk") && harmonise {
 			for _, c := range st.cols {
 				if omitEmptyTag(st.t, c) {
 					z := fieldByTag(rowsV.Index(0), c).IsZero()
@@ -367,9 +368,35 @@ func runSQLite(args []string) {
 				}
 			}
 		}
+		// a bulk insert whose rows disagree on the zero-ness of an omitempty member cannot be
+		// written with one column list: it must be rejected
+		mixed := false
+		if strings.HasPrefix(form, "bulk") {
+			used := st.cols
+			if explicitCols != nil {
+				used = explicitCols // only the listed columns are read from the rows
+			}
+			for _, c := range used {
+				if omitEmptyTag(st.t, c) {
+					z := fieldByTag(rowsV.Index(0), c).IsZero()
+					for k := 1; k < nrows; k++ {
+						if fieldByTag(rowsV.Index(k), c).IsZero() != z {
+							mixed = true
+						}
+					}
+				}
+			}
+		}
+		if mixed && insErr == nil {
+			fail("C17", caseJSON, "a bulk insert whose rows mix zero and non-zero values of an omitempty member was accepted: no single column list represents these rows, some row loses or gains a value / "+q, "")
+			sqldb.Close()
+			continue
+		}
 		if insErr != nil {
 			msg := insErr.Error()
 			switch {
+			case mixed && strings.Contains(msg, "mix of zero"):
+				dist["rejected:omitempty-mix"]++
 			case explicitZeroOmit && strings.Contains(msg, "omitempty"):
 				dist["rejected:explicit-zero-omitempty"]++
 			case strings.Contains(msg, `near ")": syntax error`):
